@@ -41,3 +41,14 @@ LEVEL_NOTE = ("trusted: Go runtime + testing/synctest fake clock, the instrument
               "instrumented copy in free-run mode), the hand-written reference codecs in sim/ref; dependencies are pre-empted only at call boundaries; "
               "the network/HTTP layer is a model of net/http's handler contract")
 NOT_CLAIMED = {}
+
+_p("C01", assume=["liveness is judged only in fault-free runs whose session stayed open and whose client kept reading; sends issued in the last 300 ms are exempt"])
+_p("C02", assume=["only well-formed payloads built by the reference encoders are submitted (hostile bytes belong to C09)"])
+_p("C06")
+_p("C07", assume=["exact virtual-time equality; at exact ties (pong processed at the deadline instant) both outcomes are accepted", "upgrade completion between a ping and its deadline is excluded, as the property says"])
+_p("C08", assume=["outcome-based: never guesses server-internal ordering"])
+_p("C11", assume=["two requests overlap at the server when the second handler started before the first was answered"])
+_p("C12", assume=["bounded time = max(30 s close timeout, pingInterval+pingTimeout) + 1 s"])
+_p("C16", assume=["a coding listed with q=0 is counted in the evidence, not flagged (weakest reading of 'names')"])
+_p("C17", assume=["preflight requests are exercised by the C05 admission scenarios"])
+_p("C18", assume=["a deadlock is a task waiting for a lock or Once it already holds, reported by simrt with its stack"])
